@@ -14,6 +14,7 @@ import (
 	"bytes"
 	"encoding/json"
 	"fmt"
+	"runtime"
 	"strings"
 	"sync"
 	"time"
@@ -47,7 +48,9 @@ func (g *gatedStorage) disarm() {
 }
 func (g *gatedStorage) Get(key string) (interface{}, error) {
 	g.mu.Lock()
-	if g.armed && strings.Contains(key, g.substr) {
+	// only the request's own synchronous flow (SessionManager.handleTunnelOpen on the calling goroutine's stack) is gated: the
+	// asynchronous notifyTargetClientToOpenTunnel of a just-created bridge reads the same mapping and must not be parked instead
+	if g.armed && strings.HasSuffix(key, g.substr) && onStack("handleTunnelOpen") {
 		g.skip--
 		if g.skip <= 0 {
 			g.armed = false
@@ -60,6 +63,21 @@ func (g *gatedStorage) Get(key string) (interface{}, error) {
 	}
 	g.mu.Unlock()
 	return g.FullStorage.Get(key)
+}
+
+func onStack(fn string) bool {
+	pcs := make([]uintptr, 48)
+	n := runtime.Callers(2, pcs)
+	frames := runtime.CallersFrames(pcs[:n])
+	for {
+		f, more := frames.Next()
+		if strings.HasSuffix(f.Function, "."+fn) {
+			return true
+		}
+		if !more {
+			return false
+		}
+	}
 }
 
 type raceReq struct {
@@ -151,7 +169,7 @@ func runRace(w *world, in raceIn) (out raceOut) {
 	}
 	defer func() {
 		w.gate.disarm()
-		bounded(func() { w.fx.Session.VerifDropBridge(tunnelID) })
+		w.fx.Session.VerifForgetBridge(tunnelID)
 		for _, f := range fakes {
 			f.Close()
 		}
@@ -203,6 +221,12 @@ func runRace(w *world, in raceIn) (out raceOut) {
 	default: // no gate: B entirely before A
 		parkedCh, releaseCh = make(chan struct{}), make(chan struct{})
 	}
+	released := false
+	defer func() {
+		if !released {
+			func() { defer func() { recover() }(); close(releaseCh) }()
+		}
+	}()
 	go func() { doneB <- send(B) }()
 	bDone := false
 	select {
@@ -233,9 +257,8 @@ func runRace(w *world, in raceIn) (out raceOut) {
 	}
 	out.MidMid = midOf()
 	bridgeMid := w.fx.Session.VerifBridge(tunnelID)
-	if out.BParked {
-		close(releaseCh)
-	}
+	released = true
+	close(releaseCh) // whoever is parked (B's own flow) goes on now
 	if !bDone {
 		select {
 		case <-doneB:
